@@ -7,6 +7,8 @@
   `arrai run main.arrai` and `arrai run main.arraiz` compute their value with the same function.
 -/
 import Arrai.C15.Lemmas
+import Arrai.C15.Expected
+import Arrai.Facts.Generated
 
 namespace Arrai.C15.Theorems
 open Arrai.C16 Arrai.C16.Impl Arrai.C16.Impl.Strs Arrai.C16.Impl.Path Arrai.C15 Arrai.C15.Impl
@@ -311,5 +313,13 @@ theorem nested_sentinel_before_repair :
     findRootC (files ++ [(Unrepaired.sentinelLoc cfg root, c)]) (mapPath cfg root) = none ∧
     findRootC (files ++ [(mapPath cfg (root ++ [sentinel]), c)]) (mapPath cfg root) = some (mapPath cfg root) := by
   decide
+
+/-! ### regenerated facts: the bundle path reads only through the source file system of the context -/
+
+/-- the only direct I/O on the import/bundle path is the URL fetch and `go mod download` … -/
+theorem facts_direct_io : Arrai.Facts.Generated.c15_direct_io = Arrai.C15.Expected.direct_io := by decide
+
+/-- … and both are behind `if isRunningBundle(ctx) { … return … }`: a running bundle never reaches them -/
+theorem facts_guarded : Arrai.Facts.Generated.c15_guarded = Arrai.C15.Expected.guarded := by decide
 
 end Arrai.C15.Theorems
